@@ -310,6 +310,23 @@ def check(ctx):
                   "garbage collection and the removal/despawn poll dominate the lookup of the target's callback",
                   "the runner can look its target up without having collected released entities and polled removals/despawns first "
                   "(a despawn made earlier in the tree is then reacted to after a later event)")
+        # the abort helper: its cleanup may release the last handle of an entity (a payload that owns a signal), so it
+        # collects and polls *after* the cleanup on every path (else that despawn is reacted to in a later tree)
+        try:
+            ab = A.abort_helper(prog)
+            ctx.touch(ab)
+            cl_runs = lib.call_blocks(ab, lib.ends(A.names(prog)["cleanup_run"])) if A.names(prog).get("cleanup_run") else \
+                [b for b, t, fr in ab.iter_calls() if fr and lib.tail(mir.fn_name(fr), 2).endswith("Cleanup::run")]
+            ab_polls = lib.call_blocks(ab, lambda n: n == poll.path)
+            ab_gcs = lib.call_blocks(ab, lambda n: n.endswith(A.TABLE["gc"]))
+            wa = lib.path_to_return_avoiding(ab, [lib.call_target(ab, c_) for c_ in cl_runs], ab_polls) if cl_runs else [0]
+            wg = lib.path_to_return_avoiding(ab, [lib.call_target(ab, c_) for c_ in cl_runs], ab_gcs) if cl_runs else [0]
+            ctx.check(bool(cl_runs) and bool(ab_polls) and bool(ab_gcs) and wa is None and wg is None, "C08.e", "abort-helper:collects-and-polls-after-cleanup",
+                      "%s:%d" % (ab.file, ab.line), "every path from the cleanup to return passes garbage collection and the removal/despawn poll",
+                      "the abort helper can return after the cleanup without collecting released entities and polling removals/despawns: a despawn "
+                      "caused by releasing the aborted command's payload is not reacted to in this tree")
+        except mir.AnchorLost as e:
+            ctx.fail("C08.e", "anchor-lost:abort-helper", "", str(e))
         # ... and a command for a busy target is postponed only after the entry poll (reactions detected by the poll for the
         # same busy target are postponed first: they were caused first)
         pushes = lib.call_blocks(R, lib.ends(A.names(prog)["queue_push"])) if A.names(prog).get("queue_push") else []
